@@ -91,6 +91,11 @@ func prepare(tag string) (string, string) {
 		infra("mktemp: %v", err)
 	}
 	root := filepath.Join(scratch, "repo")
+	repoDir := repoDir
+	if alt := os.Getenv("VERIF_REPO"); alt != "" {
+		// Only used by the mutant self-test, which works on scratch worktrees.
+		repoDir = alt
+	}
 	if err := run("/", "rsync", "-a", "--exclude", ".git", "--exclude", "/website", repoDir+"/", root+"/"); err != nil {
 		cleanup(scratch)
 		infra("copying %s: %v", repoDir, err)
